@@ -10,7 +10,7 @@ import ast
 import os
 from dataclasses import dataclass, field
 
-from . import AnalysisError
+from . import AnalysisError, localnames
 from .astutil import contains_yield, path_of, walk_scope, walk_stmts
 
 PKG = "happysimulator"
@@ -196,6 +196,7 @@ class Program:
         self._mro_cache: dict[str, list[ClassInfo]] = {}
         self._subs_cache: dict[str, list[ClassInfo]] | None = None
         self.parse_failures: list[str] = []
+        self.locals_recovered = 0  # locals renamed back to their reference names (see localnames.py)
 
     # ------------------------------------------------------------------ loading
     @classmethod
@@ -215,6 +216,7 @@ class Program:
                     with open(path, encoding="utf-8") as fh:
                         src = fh.read()
                     tree = ast.parse(src, filename=path)
+                    prog.locals_recovered += localnames.recover(tree, rel)
                 except (SyntaxError, UnicodeDecodeError, OSError) as exc:
                     prog.parse_failures.append(f"{rel}: {exc}")
                     continue
